@@ -49,6 +49,7 @@ func poolRune(t *rapid.T, extra []rune) rune {
 type genState struct {
 	ends []rune
 	ng   bool // non-greedy repetitions allowed
+	rich bool // classes: negation, difference and merging items favoured
 }
 
 func (g *genState) note(r rune) {
@@ -79,11 +80,19 @@ func genRng(t *rapid.T, g *genState) Rng {
 
 func genClass(t *rapid.T, g *genState) *Expr {
 	for try := 0; ; try++ {
-		e := &Expr{Kind: "class", Neg: ri(t, 0, 4, "neg") == 0}
+		e := &Expr{Kind: "class", Neg: ri(t, 0, 4, "neg") == 0 || g.rich && ri(t, 0, 1, "neg2") == 0}
 		for i, n := 0, ri(t, 1, 3, "n"); i < n; i++ {
-			e.Set = append(e.Set, genRng(t, g))
+			r := genRng(t, g)
+			if g.rich && i > 0 && ri(t, 0, 1, "adjacent") == 0 && e.Set[i-1].Hi < MaxRune-4 {
+				// an item that touches or repeats its neighbour (items merge when the list is flattened)
+				lo := e.Set[i-1].Hi + rune(ri(t, 0, 1, "touch"))
+				if hi := lo + rune(ri(t, 0, 2, "w")); hi < 0xD800 || lo > 0xDFFF {
+					r = Rng{Lo: lo, Hi: hi} // (never a surrogate: \uD800 is not a code point a spec can name)
+				}
+			}
+			e.Set = append(e.Set, r)
 		}
-		if ri(t, 0, 4, "diff") == 0 {
+		if ri(t, 0, 4, "diff") == 0 || g.rich && ri(t, 0, 1, "diff2") == 0 {
 			e.HasS = true
 			e.Sub = []Rng{genRng(t, g)}
 			if ri(t, 0, 3, "sub2") == 0 {
@@ -561,4 +570,7 @@ func Texts(t *rapid.T, s *Spec, n int) [][]byte {
 
 // GenClassAny / GenLitAny expose the class and literal generators.
 func GenClassAny(t *rapid.T) *Expr { return genClass(t, &genState{}) }
+
+// GenClassRich favours negation, difference and items that merge.
+func GenClassRich(t *rapid.T) *Expr { return genClass(t, &genState{rich: true}) }
 func GenLitAny(t *rapid.T) *Expr   { return genLit(t, &genState{}) }
